@@ -119,6 +119,34 @@ class Domain:
             s._k = None
 
 
+def _split_sum(t):
+    """('A', 'B') for a canonical string '(A + B)' whose left part is not a number (pointer + index), else None"""
+    if not (t.startswith("(") and t.endswith(")")):
+        return None
+    inner, depth = t[1:-1], 0
+    for i, ch_ in enumerate(inner):
+        depth += ch_ == "("
+        depth -= ch_ == ")"
+        if depth < 0:
+            return None
+        if depth == 0 and inner.startswith(" + ", i):
+            a, b = inner[:i], inner[i + 3:]
+            if a and b and not a.lstrip("-").isdigit() and _bal(a) and _bal(b) and "->" in a or "." in a:
+                return a, b
+            return None
+    return None
+
+
+def _bal(t):
+    d = 0
+    for ch_ in t:
+        d += ch_ == "("
+        d -= ch_ == ")"
+        if d < 0:
+            return False
+    return d == 0
+
+
 class Out:
     __slots__ = ("n", "b", "c", "r")
 
@@ -164,10 +192,18 @@ class Flow:
                 return base[:-6] + n["name"]
             if base.startswith("&") and n.get("isArrow") and not base.startswith("&("):
                 return base[1:] + "." + n["name"]
+            if n.get("isArrow"):
+                sp = _split_sum(base)
+                if sp is not None:
+                    return "%s[%s].%s" % (sp[0], sp[1], n["name"])       # (p + i)->f  ==  p[i].f
             return base + ("->" if n.get("isArrow") else ".") + n["name"]
         if k == "UnaryOperator":
             op = n.get("opcode")
             inner = self.canon(s, ch[0], depth)
+            if op == "*" and "*" in (strip(ch[0], casts=True).get("type") or ""):
+                sp = _split_sum(inner)
+                if sp is not None:
+                    return "%s[%s]" % (sp[0], sp[1])
             if op == "&" and inner.startswith("*"):
                 return inner[1:]
             if op == "*" and inner.startswith("&"):
